@@ -539,6 +539,12 @@ def check_property(pid, tier='quick', seed=0, witness_hook=None):
                 ok = fb.get('success', True) is not False
                 if ok:
                     discharged += cnt
+                else:
+                    # Verus names each failing obligation; the others of the function were discharged
+                    nfail = len(set((f['obligation'], str(f.get('site'))) for f in r.failures
+                                    if f.get('site_fn') and f['site_fn'].endswith('::' + short)
+                                    and f['class'] in ('labelled', 'builtin', 'undecided', 'proof-step')))
+                    discharged += max(0, cnt - max(1, nfail))
         for f in tf:
             fb = None
             for k, v in fn_by_name.items():
